@@ -10,6 +10,8 @@ Decided on every CFG path of every ConcurrentVector<T> instantiation (T with non
   C32.buffer-ownership every site that installs a bucket buffer assigns (=, never accumulates) that
                        bucket's shouldDealloc_ flag; shrink_to_fit frees only flagged buckets and nulls
                        what it releases (each block freed exactly once).
+  C32.alloc-before-advance insertPartial forms iterators beyond the old end() only after the
+                       buckets they point into were allocated (pointer-caching iterators).
   C32.no-double-ctor   insert(pos, value) never placement-constructs at the insertion point:
                        insertPartial() opens the gap with move_backward, which leaves a *live*
                        moved-from element there, so the new value must be assigned; insertPartial
@@ -171,3 +173,21 @@ def run(R):
         nul = [a for a in atomic_ops(F, fn) if a.op == "store" and "buffers_" in expr_str(a.node.get("obj")) and isinstance(strip_casts(a.node["args"][0]), dict) and (strip_casts(a.node["args"][0]).get("k") == "null" or const_val(a.node["args"][0]) == 0)]
         ok = ok and bool(nul) and all(fn.dominates(p, nul[0].pos) or fn.can_reach(p, nul[0].pos) for p, e in de)
         R.ob("C32.buffer-ownership", fn, fn.loc, ok, "buckets are freed only when flagged as owning their block, and the released bucket pointer is nulled" if ok else "shrink_to_fit frees a bucket that does not own its block, or leaves a dangling bucket pointer", sitekey="shrink_to_fit", why="each block is freed exactly once")
+
+    # ---- iterators past the old end are formed after the buckets exist ---------------------------------------
+    # the (default) pointer-caching iterator reads the bucket's base pointer when it is formed or
+    # advanced; insertPartial() forms iterators beyond the old end(), into buckets that the same call
+    # allocates -- advancing before the allocation caches a null base and the new elements are
+    # constructed through a near-null address.
+    n = 0
+    ADV = re.compile(r"Iterator::operator(\+|\+=|\+\+)$")
+    for fn in F.functions(qname=CLS + "::insertPartial"):
+        allocs = [(p, e) for p, e in fn.events() if e.get("k") == "call" and e.get("name") in ("allocateBuffer", "allocateBufferRange")]
+        advs = [(p, e) for p, e in fn.events() if e.get("k") == "call" and ADV.search(e.get("callee") or "")]
+        n += 1
+        ok = bool(allocs) and bool(advs) and all(any(fn.dominates(ap, p) for ap, _ in allocs) for p, _ in advs)
+        bad = [e for p, e in advs if not any(fn.dominates(ap, p) for ap, _ in allocs)]
+        R.ob("C32.alloc-before-advance", fn, (bad[0] if bad else advs[0][1]) if advs else fn.loc, ok,
+             "every iterator advanced past the old end() is formed after allocateBuffer*()" if ok else "an iterator is advanced past the old end() before the buckets it points into are allocated (the pointer-caching iterator keeps a null bucket base)",
+             sitekey="insertPartial:%d-params" % len(fn.params), why="the inserted elements must be constructed in the vector's storage")
+    R.need("C32.alloc-before-advance", n, 2, "insertPartial overloads")
